@@ -22,7 +22,9 @@ DumpAsSpecified == R.dumped.ok => SameN(Dump(R.orig, Cfg, CT), R.dumped.v)
 LoadSucceeds == (R.dumped.ok /\ R.wire_ok /\ R.cfg.H = <<>>) => R.loaded.ok
 RoundTrip == (R.dumped.ok /\ R.wire_ok /\ R.loaded.ok /\ R.cfg.H = <<>>) => SameN(NormV(R.orig, Cfg, CT), R.loaded.v)
 \* conformance of load with the model (given the real dumped value)
-LoadAsSpecified == (R.dumped.ok /\ R.wire_ok /\ R.loaded.ok /\ R.cfg.H = <<>>) => SameN(Load(R.loadin, CT), R.loaded.v)
+LoadAsSpecified == (R.mode \notin {"rpc", "fail"} /\ R.dumped.ok /\ R.wire_ok /\ R.loaded.ok /\ R.cfg.H = <<>>) => SameN(Load(R.loadin, CT), R.loaded.v)
+\* C07, RPC path: the remote callable receives, and the caller gets back, the same object
+RpcTransparent == R.mode = "rpc" => (R.loaded.ok /\ R.returned.ok /\ SameN(NormV(R.orig, Cfg, CT), R.returned.v))
 \* C15: neither dump nor load modifies its argument, whether it succeeds or fails
 PureDump == R.orig = R.orig_after
 PureLoad == R.loadin = R.loadin_after
@@ -35,4 +37,5 @@ Monitor == /\ DumpSucceeds \/ Flag("DumpSucceeds")
            /\ LoadAsSpecified \/ Flag("LoadAsSpecified")
            /\ PureDump \/ Flag("PureDump")
            /\ PureLoad \/ Flag("PureLoad")
+           /\ RpcTransparent \/ Flag("RpcTransparent")
 =============================================================================
